@@ -36,5 +36,7 @@ Next ==
             /\ Chk(e.received => (e.rh = e.h /\ e.rv = e.v), "c19_trigger_carries_other_pair")
        \* arming or stopping the timer is a total operation: a call that panics arms nothing and leaves the node without a timer
        [] e.ev = "panic" -> UNCHANGED <<gens, cur>> /\ Chk(FALSE, "c19_timer_call_panicked")
+       \* ... and returns: no session finished for 60 s (a session takes well under a second)
+       [] e.ev = "hang" -> UNCHANGED <<gens, cur>> /\ Chk(FALSE, "c19_timer_call_did_not_return")
        [] OTHER -> UNCHANGED <<gens, cur>>
 =============================================================================
